@@ -190,6 +190,10 @@ func c14Cases() []c14Case {
 		c14Case{desc: "style-bound-string-duplicated", tpl: `<p style="top: 0; top: 1px" :style="s">t</p>`, data: map[string]any{"s": "top: 2px; left: 0; left: 3px"}, want: map[string]string{"style": ""}, style: map[string]string{"top": "2px", "left": "3px"}},
 		c14Case{desc: "vshow-duplicated-display", tpl: `<p style="display: -webkit-box; display: flex; margin: 0" v-show="f">t</p>`, data: map[string]any{"f": false}, want: map[string]string{"style": ""}, style: map[string]string{"display": "none", "margin": "0"}},
 		c14Case{desc: "vshow-duplicated-display-shown", tpl: `<p style="display: -webkit-box; display: flex" v-show="f">t</p>`, data: map[string]any{"f": true}, want: map[string]string{"style": ""}, style: map[string]string{"display": "flex"}},
+		// a style value is a CSS value, not a condition: the number 0 is a declaration like any other
+		c14Case{desc: "style-object:zero-values", tpl: `<p :style="{opacity: o, zIndex: z, flexGrow: 0}">t</p>`, data: map[string]any{"o": 0, "z": 0.0}, want: map[string]string{"style": ""}, style: map[string]string{"opacity": "0", "z-index": "0", "flex-grow": "0"}},
+		c14Case{desc: "style-object:zero-overrides-static", tpl: `<p style="opacity: 1; margin: 2px" :style="{opacity: o}">t</p>`, data: map[string]any{"o": 0}, want: map[string]string{"style": ""}, style: map[string]string{"opacity": "0", "margin": "2px"}},
+		c14Case{desc: "style-object:zero-typed", tpl: `<p :style="{order: a, top: b}">t</p>`, data: map[string]any{"a": int8(0), "b": uint(0)}, want: map[string]string{"style": ""}, style: map[string]string{"order": "0", "top": "0"}},
 		c14Case{desc: "style-object:hyphen-key", tpl: `<p :style="{'font-size': s}">t</p>`, data: map[string]any{"s": "9px"}, want: map[string]string{"style": ""}, style: map[string]string{"font-size": "9px"}},
 		c14Case{desc: "style-bound-string", tpl: `<p style="color: red" :style="s">t</p>`, data: map[string]any{"s": "color: green; top: 1px"}, want: map[string]string{"style": ""}, style: map[string]string{"color": "green", "top": "1px"}},
 		c14Case{desc: "style-bound-nonstring", tpl: `<p style="color: red" :style="n">t</p>`, data: map[string]any{"n": 5}, want: map[string]string{"style": ""}, style: map[string]string{"color": "red"}},
